@@ -57,6 +57,9 @@ pub enum Ev {
 #[derive(Clone, Debug, PartialEq, Eq, Hash)]
 pub struct Trace {
     pub timeout_ns: u128,
+    /// every clock read by the library advances the simulated clock by this much afterwards
+    /// (time passes inside calls); 0 = the clock only moves between calls
+    pub read_step_ns: u128,
     pub events: Vec<Ev>,
 }
 
@@ -179,7 +182,7 @@ impl Ev {
 
 impl Trace {
     pub fn to_json(&self) -> J {
-        J::obj().set("timeout_ns", J::Str(self.timeout_ns.to_string())).set("events", J::Arr(self.events.iter().map(|e| e.to_json()).collect()))
+        J::obj().set("timeout_ns", J::Str(self.timeout_ns.to_string())).set("read_step_ns", J::Str(self.read_step_ns.to_string())).set("events", J::Arr(self.events.iter().map(|e| e.to_json()).collect()))
     }
 
     pub fn from_json(j: &J) -> Result<Trace, String> {
@@ -191,13 +194,21 @@ impl Trace {
         for e in j.get("events").and_then(|x| x.as_arr()).ok_or("trace: events")? {
             events.push(Ev::from_json(e)?);
         }
-        Ok(Trace { timeout_ns: (t as u128).min(DUR_MAX_NS), events })
+        let rs = match j.get("read_step_ns") {
+            Some(x) => x.as_int().ok_or("trace: read_step_ns")?,
+            None => 0,
+        };
+        if rs < 0 {
+            return Err("trace: negative read step".into());
+        }
+        Ok(Trace { timeout_ns: (t as u128).min(DUR_MAX_NS), read_step_ns: (rs as u128).min(DUR_MAX_NS), events })
     }
 
     /// 64-bit FNV-1a over a canonical encoding; identifies a decision trace.
     pub fn hash64(&self) -> u64 {
         let mut h = Fnv::new();
         h.u128(self.timeout_ns);
+        h.u128(self.read_step_ns);
         for e in &self.events {
             match e {
                 Ev::EncCc14 { g, ch, cn, val, fac } => {
